@@ -198,6 +198,42 @@ def pack_matcher_predicates(sym):
             yield ('matcher-finds-isotope', f'{sym}:{iso}:query={qiso}', ok)
 
 
+def field_grid_predicates():
+    """charge -4..4 x hydrogens 0..4 through the query API and through both REAL matchers (carbon as carrier):
+    a query with charge c and no hydrogen constraint must find exactly the atoms with charge c, whatever their H count;
+    with an explicit hydrogen constraint exactly those with that count."""
+    from chython import MoleculeContainer, QueryContainer
+    from chython.periodictable import Element, QueryElement, AnyElement, ListElement
+    _ext()
+    C = Element.from_symbol('C')
+    QC = QueryElement.from_symbol('C')
+    for c in range(-4, 5):
+        for name, make in (('QueryElement', lambda: QC(charge=c)), ('AnyElement', lambda: AnyElement(charge=c)),
+                           ('ListElement', lambda: ListElement(['C', 'N'], charge=c))):
+            try:
+                q = make()
+                ok = q.charge == c
+            except Exception:
+                ok = False
+            yield ('query-charge-settable', f'{name}:{c}', ok)
+        for h in range(0, 5):
+            m = MoleculeContainer()
+            m.add_atom(C(charge=c), 1, _skip_calculation=True)
+            m.calc_labels()
+            m._atoms[1]._implicit_hydrogens = h
+            for qc, qh in ((c, None), (c, h), (c, (h + 1) % 5), (-c if c else 1, None)):
+                q = QueryContainer(f'[C;charge={qc};h={qh}]')
+                try:
+                    q.add_atom(QC(charge=qc) if qh is None else QC(charge=qc, implicit_hydrogens=qh), 1)
+                    expect = qc == c and (qh is None or qh == h)
+                    acc = len(list(q.get_mapping(m))) > 0
+                    ref = len(list(q.get_mapping(m, _cython=False))) > 0
+                    ok = acc == ref == expect
+                except Exception:
+                    ok = False
+                yield ('matcher-charge-hydrogen-grid', f'C:charge={c}:h={h}:query=({qc},{qh})', ok)
+
+
 def correspond(ctx):
     """Exhaustive evaluation on the live classes. A false predicate *is* a failing input for the property."""
     from chython.periodictable import Element
@@ -221,6 +257,11 @@ def correspond(ctx):
                     ctx.fail(sig(pred, detail), f'{pred} fails for {detail}', {'predicate': pred, 'symbol': sym, 'z': z, 'detail': detail})
         except Exception as e:  # the element itself is unreachable: already reported by the lookup predicates
             ctx.dist('pack-matcher-skipped:' + type(e).__name__)
+    for pred, detail, ok in field_grid_predicates():
+        ctx.count((pred, detail))
+        ctx.dist(pred)
+        if not ok:
+            ctx.fail(f'C18/{pred}/{detail.split(":query")[0]}', f'{pred} fails for {detail}', {'predicate': pred, 'symbol': 'C', 'detail': detail})
     std = dict(iupac())
     syms = []
     for c in Element.__subclasses__():
@@ -262,6 +303,9 @@ def probe(inp):
     if inp['predicate'] in ('pack-roundtrip-isotope', 'matcher-finds-isotope'):
         bad = [(p, d) for p, d, ok in pack_matcher_predicates(inp['symbol']) if not ok and p == inp['predicate']]
         return bool(bad), f'{inp["predicate"]} on {inp["symbol"]}: failing cases {bad}' if bad else f'{inp["predicate"]} holds for {inp["symbol"]}'
+    if inp['predicate'] in ('query-charge-settable', 'matcher-charge-hydrogen-grid'):
+        bad = [(p, d) for p, d, ok in field_grid_predicates() if not ok and p == inp['predicate']]
+        return bool(bad), f'{inp["predicate"]}: failing cases {bad[:6]}' if bad else f'{inp["predicate"]} holds on the whole grid'
     if inp['predicate'] == 'agrees-with-standard':
         from chython.periodictable import Element
         std = dict(iupac())
